@@ -10,7 +10,7 @@
    between a thread's counter load and its DCAS. *)
 From Coq Require Import List ZArith Arith.
 From LF Require Import Conc DcasLib.
-From LF Require Lifo LifoProofs MStack MStackProofs DistFifo DistFifoProofs.
+From LF Require Lifo LifoProofs MStack MStackProofs DistFifo DistFifoProofs MultiSignal MultiSignalProofs.
 Import ListNotations.
 
 (* ====================================================================== *)
@@ -309,3 +309,112 @@ Example ex_true_empty :
   hist (lstep x 0) = [HEmpty 0].
 Proof. split; [apply ireach_irun; constructor|]. vm_compute. repeat split; reflexivity. Qed.
 End D.
+
+(* ====================================================================== *)
+(* multi-waiter signal (fiber_multi_signal_* of fiber_signal.h) on the
+   thread-with-sleep abstraction: thread t = fiber t+1 = wait node t+1      *)
+Module G.
+Import MultiSignal MultiSignalProofs.
+
+(* counter equality at any of the four DCAS => no DCAS succeeded since the
+   counter load and the branch the code took is right for the current state:
+   consuming wait / raise-to-RAISED see no waiter; a queueing wait links its
+   node in front of the current waiter list; a releasing raise removes the
+   first waiter and installs the rest of the list *)
+Theorem multisignal_dcas_snapshot_valid : forall start progs x t,
+  ireach start progs x -> ctr (base x) = sc (thr (base x) t) ->
+  match pc (thr (base x) t) with
+  | WCasC => sver x t = ver x /\ head (base x) = shd (thr (base x) t) /\ W x = []
+  | WCasQ => sver x t = ver x /\ head (base x) = shd (thr (base x) t) /\
+             next (base x) (S t) = Z.to_nat (shd (thr (base x) t)) /\ ~ In (S t) (W x) /\
+             chain (next (base x)) (Z.to_nat (shd (thr (base x) t))) (W x)
+  | RCasR => sver x t = ver x /\ head (base x) = shd (thr (base x) t) /\ W x = []
+  | RCasP => sver x t = ver x /\ head (base x) = shd (thr (base x) t) /\
+             next (base x) (Z.to_nat (shd (thr (base x) t))) = sn (thr (base x) t) /\
+             exists r, W x = Z.to_nat (shd (thr (base x) t)) :: r /\
+                       chain (next (base x)) (sn (thr (base x) t)) r
+  | _ => True
+  end.
+Proof. intros start progs x t R. exact (snapshot_of_linv start x t (ireach_linv start progs x R)). Qed.
+Print Assumptions multisignal_dcas_snapshot_valid.
+
+(* hist x is a history of the sequential object (waiters, raised):
+     wait : raised ? (raised := false, go on) : (push self, sleep)
+     raise: waiters = w :: r ? (release exactly w, waiters := r) : raised := true
+   so a raise releases exactly one waiter or leaves the signal raised (raised ->
+   raised coalesces), never two, and is never dropped while a fiber is listed
+   ([replay] rejects HRaiseR with a non-empty list); the list is what is linked
+   from the head, without repetition *)
+Theorem multisignal_raise_one_or_remember : forall start progs x,
+  ireach start progs x ->
+  replay (hist x) ([], false) = Some (W x, (head (base x) =? -1)%Z) /\
+  cell_ok (head (base x)) (next (base x)) (W x) /\ NoDup (W x).
+Proof. intros start progs x R. exact (spec_of_linv start x (ireach_linv start progs x R)). Qed.
+Print Assumptions multisignal_raise_one_or_remember.
+
+(* wake-up accounting: at most one wake-up is pending per fiber; a listed fiber
+   is asleep (or about to sleep) and has no wake-up pending, i.e. it never
+   runs before a raise released it; a pending wake-up belongs to a sleeping,
+   unlisted fiber; every fiber that sleeps is listed, or some raiser that
+   released it is on its way to schedule it, or its wake-up is pending *)
+Theorem multisignal_wait_blocks_or_consumes : forall start progs x t,
+  ireach start progs x ->
+  wk (base x) t <= 1 /\
+  (In (S t) (W x) -> sleepy (pc (thr (base x) t)) /\ wk (base x) t = 0) /\
+  (wk (base x) t = 1 -> pc (thr (base x) t) = WSleep /\ ~ In (S t) (W x)) /\
+  (sleepy (pc (thr (base x) t)) ->
+     In (S t) (W x) \/ (exists r, holds (base x) r (S t)) \/ wk (base x) t = 1).
+Proof. intros start progs x t R. exact (sleeping_of_linv start x t (ireach_linv start progs x R)). Qed.
+Print Assumptions multisignal_wait_blocks_or_consumes.
+
+(* every fiber is in exactly one state (fs x t); listed <-> queued; a released
+   fiber is held by exactly the raiser recorded for it, and a raiser in its
+   wake-up path holds exactly one released fiber *)
+Theorem multisignal_no_lost_no_dup : forall start progs x t,
+  ireach start progs x ->
+  fs_ok (base x) (fs x) t /\ (fs x t = FQueued <-> In (S t) (W x)) /\
+  (forall r, fs x t = FReleased r -> holds (base x) r (S t)) /\
+  (forall r n, holds (base x) r n -> n <> 0 /\ fs x (pred n) = FReleased r).
+Proof. intros start progs x t R. exact (accounting_of_linv start x t (ireach_linv start progs x R)). Qed.
+Print Assumptions multisignal_no_lost_no_dup.
+
+(* ---- non-vacuity ---- *)
+(* fibers 2 and 3 wait (W = [3;2]); raiser 0 reads counter 2, head 3, next 2;
+   raiser 3 releases 3 then 2; fiber 3 resumes and waits again: head = 3 again,
+   but the list below it is now empty and the counter is 5: raiser 0's DCAS fails *)
+Definition aba_progs := [[ORaise]; [OWait]; [OWait; OWait]; [ORaise; ORaise]].
+Definition aba_sched := [1;1;1;1;1;1;1; 2;2;2;2;2;2;2; 0;0;0; 3;3;3;3;3;3; 3;3;3;3;3;3; 2;2; 2;2;2;2;2;2].
+Definition aba_state := irun (iinit 0 aba_progs) aba_sched.
+
+Example ex_aba_stale_snapshot :
+  ireach 0 aba_progs aba_state /\
+  pc (thr (base aba_state) 0) = RCasP /\
+  head (base aba_state) = shd (thr (base aba_state) 0) /\
+  W aba_state = [3] /\ sn (thr (base aba_state) 0) = 2 /\
+  ctr (base aba_state) <> sc (thr (base aba_state) 0) /\
+  pc (thr (base (lstep aba_state 0)) 0) = RCtr /\ W (lstep aba_state 0) = [3] /\
+  hist aba_state = [HWaitQ 1; HWaitQ 2; HRaiseW 3 3; HRaiseW 3 2; HWaitQ 2].
+Proof.
+  split; [apply ireach_irun; constructor|]. vm_compute.
+  repeat split; try reflexivity; try discriminate.
+Qed.
+
+Example ex_release_succeeds :
+  let x := irun (iinit 0 aba_progs) [1;1;1;1;1;1;1; 0;0;0] in
+  ireach 0 aba_progs x /\ pc (thr (base x) 0) = RCasP /\ ctr (base x) = sc (thr (base x) 0) /\
+  W x = [2] /\ W (lstep x 0) = [] /\ fs (lstep x 0) 1 = FReleased 0.
+Proof. split; [apply ireach_irun; constructor|]. vm_compute. repeat split; reflexivity. Qed.
+
+Example ex_raise_remembered_then_consumed :
+  let p := [[ORaise; ORaise]; [OWait]] in
+  let x := irun (iinit 0 p) [0;0;0; 0;0;0; 1;1;1;1;1] in
+  ireach 0 p x /\ hist x = [HRaiseR 0; HRaiseR 0; HWaitC 1] /\ head (base x) = 0%Z /\
+  pc (thr (base x) 1) = Fin.
+Proof. split; [apply ireach_irun; constructor|]. vm_compute. repeat split; reflexivity. Qed.
+
+Example ex_sleeper_is_listed :
+  let x := irun (iinit 0 aba_progs) [1;1;1;1;1;1;1] in
+  ireach 0 aba_progs x /\ pc (thr (base x) 1) = WSleep /\ In 2 (W x) /\ wk (base x) 1 = 0 /\
+  status_of (base x) 1 = SBlocked.
+Proof. split; [apply ireach_irun; constructor|]. vm_compute. repeat split; auto. Qed.
+End G.
